@@ -295,7 +295,7 @@ func TestInsertions(t *testing.T) {
 			}
 			pool = append(pool, it)
 		}
-		n := rapid.IntRange(1, 4).Draw(t, "nitems")
+		n := gen.Range(t, "nitems", 1, 4)
 		var uses []catalog.Use
 		for k := 0; k < n; k++ {
 			it := pool[gen.Uniform(t, "item", len(pool))]
